@@ -53,12 +53,19 @@ func rtpOne(data []byte, p *jt1078.Packet) (st RtpStep) {
 	default:
 		return RtpStep{Class: "Error", Detail: err.Error()}
 	}
+	st = renderPacket(p)
+	st.rest = rest
+	return st
+}
+
+// renderPacket: the fields of a decoded Packet as they read now
+func renderPacket(p *jt1078.Packet) RtpStep {
 	ts := make([]byte, 8)
 	binary.BigEndian.PutUint64(ts, p.Timestamp)
 	return RtpStep{Class: "Packet", V: int(p.Flag.V), P: int(p.Flag.P), X: int(p.Flag.X), CC: int(p.Flag.CC), M: int(p.Flag.M),
 		PT: int(p.Flag.PT), Seq: int(p.Seq), Sim: digitsOf(p.Sim), Channel: int(p.LogicChannel), DT: int(p.DataType),
 		Mark: int(p.SubcontractType), TS: ts, Ival1: int(p.LastIFrameInterval), Ival2: int(p.LastFrameInterval),
-		Blen: int(p.DataBodyLen), Payload: append(B{}, p.Body...), rest: rest}
+		Blen: int(p.DataBodyLen), Payload: append(B{}, p.Body...)}
 }
 
 // rtpLoop mirrors Rtp!Loop; fresh=true uses a new Packet per step (the shipped example's pattern).
@@ -150,6 +157,8 @@ func init() {
 		var samples []any
 		var prevData []byte
 		var prevCase rtpCase
+		var heldPkt *jt1078.Packet
+		var heldStep RtpStep
 		err := readND(a[0], func(i int, raw []byte) error {
 			var c rtpCase
 			if err := jsonUnmarshal(raw, &c); err != nil {
@@ -157,6 +166,36 @@ func init() {
 			}
 			n++
 			got := rtpLoop(c.Data, true)
+			// a Packet decoded from the previous case is the caller's: it reads the same after this case's packets (other SIMs,
+			// other payloads) have been decoded
+			if heldPkt != nil {
+				var now RtpStep
+				if pn := protect(func() { now = renderPacket(heldPkt) }); pn != "" {
+					now = RtpStep{Class: "Panic", Detail: pn}
+				}
+				if !stepEq(now, heldStep) {
+					out.put(mismatch{"decoded-packet-changed-by-a-later-decode", fmt.Sprintf("decoded %+v, after the next stream it reads %+v", heldStep, now), []rtpCase{prevCase, c}})
+				}
+				heldPkt = nil
+			}
+			if hp := jt1078.NewPacket(); true {
+				if st := rtpOne(exact(c.Data), hp); st.Class == "Packet" {
+					heldPkt, heldStep = hp, st
+					// at once: another terminal's packet (the same bytes under a different SIM number, digits and length of the
+					// number changed) is decoded by a Packet of its own
+					for _, fill := range []byte{0x98, 0x00, 0x07} {
+						other := exact(c.Data)
+						for k := 8; k < 14 && k < len(other); k++ {
+							other[k] = fill ^ byte(k)&1
+						}
+						rtpOne(other, jt1078.NewPacket())
+						if now := renderPacket(hp); !stepEq(now, st) {
+							out.put(mismatch{"decoded-packet-changed-by-a-later-decode", fmt.Sprintf("decoded %+v; after a packet with SIM bytes %x was decoded it reads %+v", st, other[8:14], now), c})
+							break
+						}
+					}
+				}
+			}
 			last := c.Out[len(c.Out)-1].Class
 			classes[fmt.Sprintf("%d packets then %s", len(c.Out)-1, last)]++
 			if len(samples) < 3 && len(c.Out) == 3 {
